@@ -149,8 +149,10 @@ class Shadow:
             # a new engine over the same database sees what was persisted: the state at each key's last COMPLETION
             self.built = dict(self.ran)            # builtAt as persisted
             self.deps.update(self.dbdeps)          # and the dependency lists as stored (a cancelled build may have left partial lists in memory)
+            self.singles.update(getattr(self, "dbsingles", {}))      # stored lists still hold the single-use entries (cleaning happens in memory at a scan)
         else:
             self.built, self.ran, self.changed, self.value, self.sig, self.deps, self.orderonly, self.dbdeps = {}, {}, {}, {}, {}, {}, {}, {}
+            self.singles, self.dbsingles = {}, {}
             self.epoch = 0
         self.flag = set()
         if not keep_db or not hasattr(self, "uncertain"):
@@ -240,12 +242,41 @@ class Shadow:
                 got = sorted(b["deps"].get(k, []))
                 if want != got:
                     errs.append(("deps-not-what-was-requested", "rule %d ran and requested %s but its recorded dependencies are %s" % (k, want, got)))
+            # a rule that is only SCANNED (validated, not re-run) has had its single-use dependencies removed before the scan: afterwards its
+            # recorded list is the previous one minus exactly those entries
+            for k in scanned_ok:
+                if k in created or k in self.uncertain or k not in self.deps or k in self.flag:
+                    continue
+                want = list(self.deps[k])
+                for sg in self.singles.get(k, []):
+                    if sg in want:
+                        want.remove(sg)
+                got = list(b["deps"].get(k, []))
+                if sorted(want) != sorted(got):
+                    errs.append(("single-use-not-cleaned", "rule %d was scanned without running: its recorded dependencies should be %s (previous list %s minus the single-use ones %s) but are %s" % (
+                        k, sorted(want), self.deps[k], self.singles.get(k, []), sorted(got))))
+                self.singles[k] = []
+            for k in created:
+                if k in completed:
+                    self.singles[k] = list(rules.get(k, DEFAULT_RULE).get("single", []))
+            # a rule without recorded dependencies has no `deps` line: what was looked at in this build and is not listed has an empty list now
+            for k in list(scanned_ok) + [x for x in created if x in completed]:
+                if k not in b["deps"]:
+                    self.deps[k] = []
+        else:
+            # no judgement in an aborted build, but a rule whose validity was asked there has been through the cleaning as well
+            for k in scanned_ok:
+                if k not in created:
+                    self.singles[k] = []
+                    if k not in b["deps"] and not any(x.startswith("deps-unavailable") for x in b["other"]):
+                        self.deps[k] = []
         for k, d in b["deps"].items():
             self.deps[k] = d
         for l in b.get("db", []):
             t = l.split(" ")
             if t[0] == "dbrow":
                 self.dbdeps[int(t[1])] = [int(x.split(":")[0]) for x in t[6:] if x.split(":")[0].lstrip("-").isdigit()]
+                self.dbsingles[int(t[1])] = [int(x.split(":")[0]) for x in t[6:] if x.split(":")[0].lstrip("-").isdigit() and ":" in x and x.split(":")[1].isdigit() and int(x.split(":")[1]) & 2]
         self.last_created = created
         return errs
 
